@@ -171,7 +171,14 @@ class Sim:
             if not self.aborting:
                 tb = traceback.extract_tb(e.__traceback__)
                 where = [(f.filename.rsplit("/", 2)[-1], f.lineno, f.name) for f in tb[-3:]]
-                self.uncaught.append({"task": t.name, "kind": t.kind, "exc": type(e).__name__, "msg": str(e)[:200], "where": where})
+                # did the exception come out of the library (possibly through a simulated primitive or the stdlib)?
+                in_lib = False
+                for f in reversed(tb):
+                    if "/wdsim/" in f.filename or "/lib/python" in f.filename:
+                        continue
+                    in_lib = "/watchdog/" in f.filename
+                    break
+                self.uncaught.append({"task": t.name, "kind": t.kind, "exc": type(e).__name__, "msg": str(e)[:200], "where": where, "in_lib": in_lib})
                 self.rec("uncaught", t.name, type(e).__name__)
         finally:
             t.state = DONE
